@@ -18,14 +18,15 @@ RULE = ("cases: call histories of 12..40 calls drawn from {lu_solve, lu_factor, 
         "must give bit-equal results. Non-trivial: the history contains a matrix that needs at least one row swap and at "
         "least one repeated (function, arguments) pair; distinct = distinct case hash.")
 ASSUMPTIONS = ["CPython float/Fraction arithmetic", "exact linear algebra of nvmon.ref (Gaussian elimination in Fractions)",
-               "explored domain: exact condition number <= 1e6, sizes <= 8; non-pivoting lu_solve judged only when the exact "
-               "LU factors exist with growth <= 1e3 (its documented domain) or the matrix is strictly diagonally dominant / "
-               "a collocation matrix"]
+               "explored domain: exact condition number <= 1e6, sizes <= 8; tolerance scaled by the exact LU growth factor of the matrix "
+               "(non-pivoting lu_solve) or of its exactly partial-pivoted row permutation (lu_factor, inverse, determinant); when that growth "
+               "is > 1e3 or a pivot is exactly zero a RETURNED result is still judged (1e-6 relative) under the mechanism key */pivot-breakdown; "
+               "raising ZeroDivisionError is not returning a result"]
 FLOORS = {'quick': {'lu_factor': 150, 'lu_solve': 150, 'matrix_inverse': 100, 'matrix_determinant': 100,
                     'matrix_pivot': 300, 'matrix_identity': 300, 'same-args-same-result': 500, 'helper': 1000,
                     'lu_solve_must_return': 60},
           'thorough': {'lu_factor': 1500, 'lu_solve': 1500, 'matrix_inverse': 1000, 'same-args-same-result': 5000}}
-MANDATORY_TAGS = ['size8', 'size1', 'edit-in-place', 'swaps>=2', 'zero-diagonal', 'diag-dominant', 'collocation', 'float-entries',
+MANDATORY_TAGS = ['size8', 'size1', 'edit-in-place', 'swaps>=2', 'zero-diagonal', 'diag-dominant', 'collocation', 'float-entries', 'residue-pivot', 'prepivot-breakdown',
                   'rational-entries']
 TECHNIQUE = ("runtime monitoring: all-call post-condition hooks on geomdl.linalg with exact-arithmetic residual oracles, plus an "
              "online call-log checker (same arguments => bit-identical result) over randomized call histories")
@@ -80,8 +81,9 @@ def lu_growth(A):
     return float(max(abs(x) for r in L for x in r) * max(abs(x) for r in U for x in r) / amax)
 
 
-def prepivoted(A):
-    """P*A exactly as the documented a-priori pivoting rule produces it (first largest entry of each column)"""
+def apriori_pivoted(A):
+    """P*A for the a-priori rule (first largest entry of each column of the ORIGINAL matrix) - the rule matrix_pivot used to implement;
+    kept to label the matrices on which that rule breaks down"""
     M = [[F(x) for x in r] for r in A]
     n = len(M)
     for j in range(n):
@@ -91,6 +93,28 @@ def prepivoted(A):
                 amax, row = abs(M[i][j]), i
         if row != j:
             M[j], M[row] = M[row], M[j]
+    return M
+
+
+def prepivoted(A):
+    """P*A for partial pivoting in exact arithmetic (first largest entry of each column of the ELIMINATED matrix): the reference for what a
+    pivoting LU routine can be expected to factorise stably (growth <= 2^(n-1))"""
+    M = [[F(x) for x in r] for r in A]
+    E = [list(r) for r in M]
+    n = len(M)
+    for j in range(n):
+        row, amax = j, F(0)
+        for i in range(j, n):
+            if abs(E[i][j]) > amax:
+                amax, row = abs(E[i][j]), i
+        if row != j:
+            M[j], M[row] = M[row], M[j]
+            E[j], E[row] = E[row], E[j]
+        if E[j][j] != 0:
+            for i in range(j + 1, n):
+                f = E[i][j] / E[j][j]
+                if f:
+                    E[i] = [x - f * y for x, y in zip(E[i], E[j])]
     return M
 
 
@@ -178,9 +202,14 @@ def install_linalg_hooks(ctx):
         pm = ref.matmul(p, m)
         c.check(all(F(x) == y for r1, r2 in zip(mp, pm) for x, y in zip(r1, r2)) and len(mp) == n, 'pivot/mp-not-P*m',
                 'matrix_pivot: returned matrix is not P*M', what='matrix_pivot', m=m, mp=mp, p=p)
-        # partial pivoting: each pivot is a column maximum of the rows not yet fixed
-        okp = all(abs(mp[j][j]) >= max(abs(mp[i][j]) for i in range(j, n)) for j in range(n))
-        c.check(okp, 'pivot/not-column-max', 'matrix_pivot: a diagonal entry is not the largest of its column below it',
+        # the purpose of pivoting: for a non-singular (well-conditioned) M the row-permuted matrix has an LU factorisation with bounded growth
+        cn_ = cond_exact(m)
+        if cn_ is None or cn_ > 1e6:
+            return True
+        g_ = lu_growth(mp)
+        okp = g_ is not None and g_ <= 1.001 * 2.0 ** (n - 1)
+        c.check(okp, 'pivot/permuted-matrix-not-lu-factorisable', 'matrix_pivot of a well-conditioned matrix (cond %.3g): LU factorisation of the '
+                'returned P*M %s' % (cn_, 'hits a zero pivot' if g_ is None else 'has growth %.3g > 2^(n-1)' % g_),
                 what='matrix_pivot', m=m, mp=mp)
         c.check(m == a[0], 'pivot/input-modified', 'matrix_pivot modified its input', what='matrix_pivot')
         if len(res) == 3:
@@ -198,7 +227,13 @@ def install_linalg_hooks(ctx):
                 return False
             g = lu_growth(A if not pivoting else prepivoted(A))
             if g is None or g > 1e3:
-                return False   # LU of the (pre-pivoted) matrix breaks down / is unstable: outside the routine's domain
+                # LU of the (pre-pivoted) matrix breaks down / is unstable. Raising is fine; but a result that IS returned for a
+                # non-singular matrix must still solve the system (mechanism key of its own: missing / a-priori-only pivoting)
+                c.check(residual_ok(A, res, B, tol=1e-6, growth=1e3), 'solve/%s-residual/pivot-breakdown' % fname,
+                        '%s returned X with A X != B for a well-conditioned matrix (cond %.3g) whose %s has a zero or vanishing pivot'
+                        % (fname, cn, 'LU factorisation after the a-priori row permutation' if pivoting else 'LU factorisation without pivoting'),
+                        what=fname + '-breakdown', A=A, B=B, X=res)
+                return True
             c.check(residual_ok(A, res, B, growth=g), 'solve/%s-residual' % fname, '%s returned X with A X != B' % fname, what=fname,
                     A=A, B=B, X=res)
             return True
@@ -213,9 +248,12 @@ def install_linalg_hooks(ctx):
             return False
         n = len(A)
         g = lu_growth(prepivoted(A))
-        if g is None or g > 1e3:
-            return False
         I = [[1 if i == j else 0 for j in range(n)] for i in range(n)]
+        if g is None or g > 1e3:
+            c.check(is_matrix(res) and len(res) == n and residual_ok(A, res, I, tol=1e-6, growth=1e3), 'inverse/residual/pivot-breakdown',
+                    'matrix_inverse returned a matrix with A * A^-1 != I for a well-conditioned matrix (cond %.3g) whose LU factorisation after the '
+                    'a-priori row permutation has a zero or vanishing pivot' % cn, what='matrix_inverse-breakdown', A=A, inv=res)
+            return True
         c.check(is_matrix(res) and len(res) == n and residual_ok(A, res, I, growth=g), 'inverse/residual',
                 'matrix_inverse: A * A^-1 != I', what='matrix_inverse', A=A, inv=res)
         return True
@@ -436,6 +474,17 @@ def rand_matrix(rng, n, cls):
                 s1, s2 = rng.choice([-9, 9]), rng.choice([-9, 9])
                 A[0][0] = A[1][0] = s1
                 A[0][1] = A[1][1] = s2
+        elif cls == 'residue':
+            # as 'breakdown', but the multiplier of the proportional leading rows is not a binary fraction: the exactly-zero second pivot
+            # comes out of floating-point elimination as a rounding residue of ~1e-16 instead of 0.0
+            A = [[rng.randint(-8, 8) for _ in range(n)] for _ in range(n)]
+            if n >= 3:
+                for _t in range(100):
+                    a_, c_, t_ = rng.choice([49, 98, 7, 3, 11, 13, 21, 35, 77]), rng.randint(1, 9), rng.choice([1, 1, 2, 3])
+                    if a_ > c_ and (c_ / a_) * (a_ * t_) != c_ * t_:
+                        break
+                sg = rng.choice([-1, 1])
+                A[0][0], A[0][1], A[1][0], A[1][1] = sg * a_, sg * a_ * t_, c_, c_ * t_
         else:
             raise ValueError(cls)
         c = cond_exact(A)
@@ -507,7 +556,7 @@ def check_history(case, ctx):
     from geomdl import linalg
     rng = random.Random(case['seed'])
     pool = []
-    classes = ['int', 'float', 'rational', 'diagdom', 'zerodiag', 'needswaps', 'breakdown']
+    classes = ['int', 'float', 'rational', 'diagdom', 'zerodiag', 'needswaps', 'breakdown', 'residue']
     for n in case['sizes']:
         cls = rng.choice(classes)
         A = rand_matrix(rng, n, cls)
@@ -519,7 +568,9 @@ def check_history(case, ctx):
             ctx.tag('zero-diagonal')
         if cls == 'diagdom':
             ctx.tag('diag-dominant')
-        if lu_growth(prepivoted(A)) is None:
+        if cls == 'residue' and n >= 3:
+            ctx.tag('residue-pivot')
+        if lu_growth(apriori_pivoted(A)) is None:
             ctx.tag('prepivot-breakdown')
         ctx.tag({'float': 'float-entries', 'rational': 'rational-entries'}.get(cls, 'int-entries'))
     if rng.random() < 0.5:
